@@ -17,6 +17,7 @@ LR = 'authorship::authorship_log::LineRange'
 LATTR = 'authorship::attribution_tracker::LineAttribution'
 SER = 'authorship::authorship_log_serialization'
 LOG = SER + '::AuthorshipLog'
+KANI = ['line_range_contains_is_interval_membership', 'line_range_overlaps_is_symmetric_and_exact', 'line_attribution_intersection_is_interval_intersection']
 CFG = {'max_steps': 1000000}
 
 BOUNDS = {
